@@ -59,6 +59,9 @@ def run(ctx):
         ctx.guard(stream_table, ctx, cfg, fs)
         ctx.guard(completion_marker, ctx, cfg, fs)
         ctx.guard(colour_detection, ctx, cfg, fs)
+        ctx.guard(width_agreement, ctx, cfg, fs)
+        import c08, c09
+        ctx.guard(c08.keep_only, ctx, lambda: c09.tokenizer(ctx, cfg, fs), lambda o: 'pos-only' in o.key, 'K.completion-marker')
         ctx.guard(run_flow, ctx, cfg, fs)
         ctx.guard(argv0, ctx, cfg, fs)
         ctx.guard(who, ctx, cfg, fs)
@@ -121,6 +124,22 @@ def completion_marker(ctx, cfg, fs):
     ctx.ob('K.completion-marker', 'check_next:rev-marker-recognised-with-and-without-name', ok,
            'for an item `--bpaf-complete-rev=...` (not a style marker) check_next returns %s on all %d paths, with the program name %s; the revision is recorded on %d path(s)' % (
                rets, len(paths), sorted(name_forks), len(wrote)), where=b.where(), cfg=cfg)
+
+def width_agreement(ctx, cfg, fs):
+    """run() prints with Info.max_width (print_message), everything reachable from run_inner (unwrap_stdout / unwrap_stderr,
+    Doc::monochrome, Display) wraps at console::MAX_WIDTH: a parser that never calls max_width(..) prints the text run_inner
+    predicts only if the two defaults are the same number"""
+    b = ctx.look(fs.one(r'^<info::Info as std::default::Default>::default$'))
+    v1 = set()
+    for i, k, st in b.stmts():
+        if st['rv']['k'] == 'agg' and st['rv'].get('adt') == 'info::Info':
+            names = st['rv'].get('field_names') or []
+            if 'max_width' in names:
+                v1 |= {r.what if r.kind == 'const' else '%s:%s' % (r.kind, r.what) for r in provenance(b, st['rv']['fields'][names.index('max_width')], i, k)}
+    c = fs.consts.get('buffer::console::MAX_WIDTH')
+    v2 = c.get('v') if c else None
+    ctx.ob('W.width-agreement', 'Info::default:max_width==MAX_WIDTH', len(v1) == 1 and v2 is not None and v1 == {v2},
+           'the default width of run() is %s, the width of monochrome()/Display (what run_inner renders with) is %s' % (sorted(v1, key=str), v2), where=b.where(), cfg=cfg)
 
 def colour_detection(ctx, cfg, fs):
     """what print_message writes into a stream that is not a terminal must be the plain text run_inner predicts: whenever
